@@ -1508,3 +1508,451 @@ theorem c02_ratioDep_honest (parA parB : Bool) (gp : List (List ℤ)) (p : ℕ)
   simp only [Bool.or_eq_false_iff] at h
   unfold leafGrad productGrad
   simp [h.1, h.2]
+
+/-! ## Deepening round: the joint theorem about `Grad.stacked` -/
+
+namespace C02
+
+structure FLeaf where
+  rA : ℝ → ℝ
+  rB : ℝ → ℝ
+  dA : ℝ
+  dB : ℝ
+
+structure FDS where
+  N : ℕ
+  parA : Bool
+  parB : Bool
+  rows : List ((ℝ → ℝ) × List ℝ)
+  ev : List (List FLeaf)
+
+def FLeaf.at (l : FLeaf) (t : ℝ) : Leaf ℝ := ⟨l.rA t, l.rB t, l.dA, l.dB⟩
+
+def FDS.at (d : FDS) (t : ℝ) : DSIn ℝ :=
+  ⟨d.N, d.parA, d.parB, d.rows.map (fun r => r.1 t), d.rows.map (·.2), d.ev.map (fun row => row.map (fun l => l.at t))⟩
+
+/-- the weights `a_jk(t)` of one dataset with the derivative the consumers' rule assigns for fit parameter `p` -/
+noncomputable def akF (srcs : List (List ℤ × ℝ)) (rows : List ((ℝ → ℝ) × List ℝ)) (p : ℕ) : List ((ℝ → ℝ) × ℝ) :=
+  List.zipWith (fun s r => ((fun t => s.2 * r.1 t), s.2 * locToFit s.1 r.2 p)) srcs rows
+
+theorem akF_val (srcs : List (List ℤ × ℝ)) (rows : List ((ℝ → ℝ) × List ℝ)) (p : ℕ) (t : ℝ) :
+    (akF srcs rows p).map (fun e => e.1 t) = aRow (srcs.map (·.2)) (rows.map (fun r => r.1 t)) := by
+  unfold akF aRow
+  rw [List.map_zipWith, List.zipWith_map]
+
+theorem zipWith_same_left {α β γ δ ε : Type} (f : α → δ → ε) (g : γ → β → δ) (a1 : α' → α) (a2 : α' → γ)
+    (xs : List α') (ys : List β) :
+    List.zipWith f (xs.map a1) (List.zipWith g (xs.map a2) ys) = List.zipWith (fun x y => f (a1 x) (g (a2 x) y)) xs ys := by
+  induction xs generalizing ys with
+  | nil => simp
+  | cons x xs ih =>
+    cases ys with
+    | nil => simp
+    | cons y ys => simp [ih]
+
+theorem akF_der (srcs : List (List ℤ × ℝ)) (rows : List ((ℝ → ℝ) × List ℝ)) (p : ℕ) :
+    (akF srcs rows p).map (·.2)
+      = aRow (srcs.map (·.2)) (List.zipWith (fun g dy => locToFit g dy p) (srcs.map (·.1)) (rows.map (·.2))) := by
+  unfold akF aRow
+  rw [List.map_zipWith]
+  have := zipWith_same_left (fun (w : ℝ) (x : ℝ) => w * x) (fun (g : List ℤ) (dy : List ℝ) => locToFit g dy p)
+    (fun s : List ℤ × ℝ => s.2) (fun s => s.1) srcs (rows.map (·.2))
+  rw [this, List.zipWith_map_right]
+
+theorem akF_has (srcs : List (List ℤ × ℝ)) (rows : List ((ℝ → ℝ) × List ℝ)) (p : ℕ) (t0 : ℝ)
+    (h : ∀ e ∈ List.zip srcs rows, HasDerivAt e.2.1 (locToFit e.1.1 e.2.2 p) t0) :
+    ∀ e ∈ akF srcs rows p, HasDerivAt e.1 e.2 t0 := by
+  intro e he
+  unfold akF at he
+  rw [← List.map_uncurry_zip_eq_zipWith] at he
+  simp only [List.mem_map] at he
+  obtain ⟨sr, hsr, rfl⟩ := he
+  exact (h sr hsr).const_mul sr.1.2
+
+/-- the leaf ratios `R_ik(t)` of one event with the derivative `leafGrad` assigns for fit parameter `p` -/
+noncomputable def rkF (parA parB : Bool) (srcs : List (List ℤ × ℝ)) (row : List FLeaf) (p : ℕ) (t0 : ℝ) :
+    List ((ℝ → ℝ) × ℝ) :=
+  List.zipWith (fun s l => ((fun t => l.rA t * l.rB t), leafGrad parA parB (srcs.map (·.1)) s.1 p (l.at t0))) srcs row
+
+theorem rkF_val (parA parB : Bool) (srcs : List (List ℤ × ℝ)) (row : List FLeaf) (p : ℕ) (t0 t : ℝ)
+    (hlen : row.length = srcs.length) :
+    (rkF parA parB srcs row p t0).map (fun e => e.1 t) = (row.map (fun l => l.at t)).map leafRatio := by
+  unfold rkF
+  rw [List.map_zipWith, List.map_map]
+  induction srcs generalizing row with
+  | nil =>
+    cases row with
+    | nil => simp
+    | cons l row => simp at hlen
+  | cons s srcs ih =>
+    cases row with
+    | nil => simp at hlen
+    | cons l row =>
+      simp only [List.length_cons, Nat.add_right_cancel_iff] at hlen
+      simp only [List.zipWith_cons_cons, List.map_cons, List.cons.injEq]
+      exact ⟨by simp [leafRatio, FLeaf.at], ih row hlen⟩
+
+theorem rkF_der (parA parB : Bool) (srcs : List (List ℤ × ℝ)) (row : List FLeaf) (p : ℕ) (t0 : ℝ) :
+    (rkF parA parB srcs row p t0).map (·.2)
+      = List.zipWith (fun g l => leafGrad parA parB (srcs.map (·.1)) g p l) (srcs.map (·.1)) (row.map (fun l => l.at t0)) := by
+  unfold rkF
+  rw [List.map_zipWith, List.zipWith_map]
+
+theorem rkF_has (parA parB : Bool) (srcs : List (List ℤ × ℝ)) (row : List FLeaf) (p : ℕ) (t0 : ℝ)
+    (h : ∀ e ∈ List.zip srcs row,
+      HasDerivAt e.2.rA (if parA && decide (e.1.1.getD 0 0 = (p : ℤ) + 1) then e.2.dA else 0) t0 ∧
+      HasDerivAt e.2.rB (if parB && decide (e.1.1.getD 1 0 = (p : ℤ) + 1) then e.2.dB else 0) t0) :
+    ∀ e ∈ rkF parA parB srcs row p t0, HasDerivAt e.1 e.2 t0 := by
+  intro e he
+  unfold rkF at he
+  rw [← List.map_uncurry_zip_eq_zipWith] at he
+  simp only [List.mem_map] at he
+  obtain ⟨sl, hsl, rfl⟩ := he
+  obtain ⟨hA, hB⟩ := h sl hsl
+  have hmem : sl.1.1 ∈ srcs.map (·.1) := List.mem_map.mpr ⟨sl.1, (List.of_mem_zip hsl).1, rfl⟩
+  simp only [Function.uncurry, leafGrad, FLeaf.at]
+  refine c02_product_rule _ _ sl.2.rA sl.2.rB _ _ t0 hA hB ?_ ?_
+  · intro hd
+    by_cases hp : parA = true
+    · have := c02_leafGrad_flags (srcs.map (·.1)) sl.1.1 hmem p 0 (by simpa [hp] using hd)
+      rw [List.getD_eq_getElem?_getD] at this
+      simp
+      intro _ h2
+      exact absurd h2 this
+    · simp [hp]
+  · intro hd
+    by_cases hp : parB = true
+    · have := c02_leafGrad_flags (srcs.map (·.1)) sl.1.1 hmem p 1 (by simpa [hp] using hd)
+      rw [List.getD_eq_getElem?_getD] at this
+      simp
+      intro _ h2
+      exact absurd h2 this
+    · simp [hp]
+
+/-- derivative of a dot product of two lists of differentiable functions (no alignment needed) -/
+theorem hasDerivAt_dot2 (As Bs : List ((ℝ → ℝ) × ℝ)) (t0 : ℝ)
+    (hA : ∀ e ∈ As, HasDerivAt e.1 e.2 t0) (hB : ∀ e ∈ Bs, HasDerivAt e.1 e.2 t0) :
+    HasDerivAt (fun t => dot (As.map (fun e => e.1 t)) (Bs.map (fun e => e.1 t)))
+      (dot (As.map (·.2)) (Bs.map (fun e => e.1 t0)) + dot (As.map (fun e => e.1 t0)) (Bs.map (·.2))) t0 := by
+  unfold dot
+  simp only [sumF_eq_sum]
+  induction As generalizing Bs with
+  | nil => simpa using hasDerivAt_const t0 (0 : ℝ)
+  | cons a As ih =>
+    cases Bs with
+    | nil => simpa using hasDerivAt_const t0 (0 : ℝ)
+    | cons b Bs =>
+      have h1 := (hA a (by simp)).mul (hB b (by simp))
+      have h2 := ih Bs (fun e he => hA e (by simp [he])) (fun e he => hB e (by simp [he]))
+      refine hasDerivAt_of_eq (h1.add h2) (fun y => by simp) ?_
+      simp
+      ring
+
+theorem dot_comm' (xs ys : List ℝ) : dot xs ys = dot ys xs := by
+  unfold dot
+  rw [sumF_eq_sum, sumF_eq_sum]
+  congr 1
+  induction xs generalizing ys with
+  | nil => simp
+  | cons x xs ih =>
+    cases ys with
+    | nil => simp
+    | cons y ys => simp [ih ys, mul_comm]
+
+/-- `SourceWeightedPDFRatio`: value and gradient for separately given weight and ratio lists -/
+theorem hasDerivAt_wRatio2 (As Bs : List ((ℝ → ℝ) × ℝ)) (t0 : ℝ)
+    (hA : ∀ e ∈ As, HasDerivAt e.1 e.2 t0) (hB : ∀ e ∈ Bs, HasDerivAt e.1 e.2 t0)
+    (hpos : 0 < sumF (As.map (fun e => e.1 t0))) :
+    HasDerivAt (fun t => wRatio (As.map (fun e => e.1 t)) (Bs.map (fun e => e.1 t)))
+      (wRatioGrad (As.map (fun e => e.1 t0)) (As.map (·.2)) (Bs.map (fun e => e.1 t0)) (Bs.map (·.2))) t0 := by
+  have hnum := hasDerivAt_dot2 Bs As t0 hB hA
+  have hden := hasDerivAt_sumF_row As t0 hA
+  have hev : ∀ᶠ t in nhds t0, 0 < sumF (As.map (fun e => e.1 t)) :=
+    hden.continuousAt.tendsto.eventually_const_lt hpos
+  have hq := (hnum.div hden hpos.ne').congr_of_eventuallyEq
+    (f₁ := fun t => wRatio (As.map (fun e => e.1 t)) (Bs.map (fun e => e.1 t)))
+    (by
+      filter_upwards [hev] with t ht
+      simp [wRatio, ht])
+  refine hasDerivAt_of_eq hq (fun y => rfl) ?_
+  simp only [wRatioGrad, wRatio, hpos, if_true]
+  rw [dot_comm' (As.map (·.2)) (Bs.map (fun e => e.1 t0)), dot_comm' (As.map (fun e => e.1 t0)) (Bs.map (·.2))]
+  field_simp
+  ring
+
+theorem yieldDep_honest (srcs : List (List ℤ × ℝ)) (hshape : ∀ s ∈ srcs, s.1.length ≤ 2) (p : ℕ)
+    (h : yieldDep (srcs.map (·.1)) p = false) (dY : List (List ℝ)) :
+    ∀ x ∈ aRow (srcs.map (·.2)) (List.zipWith (fun g dy => locToFit g dy p) (srcs.map (·.1)) dY), x = 0 := by
+  intro x hx
+  unfold aRow at hx
+  rw [zipWith_same_left (fun (w : ℝ) (x : ℝ) => w * x) (fun (g : List ℤ) (dy : List ℝ) => locToFit g dy p)
+    (fun s : List ℤ × ℝ => s.2) (fun s => s.1) srcs dY, ← List.map_uncurry_zip_eq_zipWith] at hx
+  simp only [List.mem_map] at hx
+  obtain ⟨sd, hsd, rfl⟩ := hx
+  have hs : sd.1 ∈ srcs := (List.of_mem_zip hsd).1
+  have hmem : sd.1.1 ∈ srcs.map (·.1) := List.mem_map.mpr ⟨sd.1, hs, rfl⟩
+  unfold yieldDep at h
+  simp only [Bool.or_eq_false_iff] at h
+  have h0 := c02_leafGrad_flags (srcs.map (·.1)) sd.1.1 hmem p 0 h.1
+  have h1 := c02_leafGrad_flags (srcs.map (·.1)) sd.1.1 hmem p 1 h.2
+  have hz : locToFit sd.1.1 sd.2 p = 0 := by
+    apply c02_locToFit_zero_of_no_match
+    intro g hg
+    rw [List.mem_iff_getElem] at hg
+    obtain ⟨i, hi, rfl⟩ := hg
+    have hlen := hshape sd.1 hs
+    have : i = 0 ∨ i = 1 := by omega
+    rcases this with rfl | rfl
+    · simpa [List.getD_eq_getElem?_getD, List.getElem?_eq_getElem hi] using h0
+    · simpa [List.getD_eq_getElem?_getD, List.getElem?_eq_getElem hi] using h1
+  simp [Function.uncurry, hz]
+
+/-- the honest-leaf hypotheses of one dataset for fit parameter `p` at `t0` -/
+def FDS.Honest (srcs : List (List ℤ × ℝ)) (p : ℕ) (t0 : ℝ) (d : FDS) : Prop :=
+  d.rows.length = srcs.length ∧
+  (∀ e ∈ List.zip srcs d.rows, HasDerivAt e.2.1 (locToFit e.1.1 e.2.2 p) t0) ∧
+  ∀ row ∈ d.ev, row.length = srcs.length ∧ ∀ e ∈ List.zip srcs row,
+    HasDerivAt e.2.rA (if d.parA && decide (e.1.1.getD 0 0 = (p : ℤ) + 1) then e.2.dA else 0) t0 ∧
+    HasDerivAt e.2.rB (if d.parB && decide (e.1.1.getD 1 0 = (p : ℤ) + 1) then e.2.dB else 0) t0
+
+theorem event_has (srcs : List (List ℤ × ℝ)) (hshape : ∀ s ∈ srcs, s.1.length ≤ 2) (p : ℕ) (t0 : ℝ) (d : FDS)
+    (hd : d.Honest srcs p t0) (row : List FLeaf) (hrow : row ∈ d.ev)
+    (hpos : 0 < sumF (aRow (srcs.map (·.2)) (d.rows.map (fun r => r.1 t0)))) :
+    HasDerivAt
+      (fun t => xOfRatio d.N (wRatio (aRow (srcs.map (·.2)) (d.rows.map (fun r => r.1 t)))
+        ((row.map (fun l => l.at t)).map leafRatio)))
+      (dxOfDRatio d.N (wRatioGradCode (yieldDep (srcs.map (·.1)) p) (ratioDep d.parA d.parB (srcs.map (·.1)) p)
+        (aRow (srcs.map (·.2)) (d.rows.map (fun r => r.1 t0)))
+        (stDaRow (srcs.map (·.1)) (srcs.map (·.2)) (d.at t0) p)
+        ((row.map (fun l => l.at t0)).map leafRatio)
+        (List.zipWith (fun g l => leafGrad d.parA d.parB (srcs.map (·.1)) g p l) (srcs.map (·.1))
+          (row.map (fun l => l.at t0))))) t0 := by
+  obtain ⟨_, hY, hL⟩ := hd
+  obtain ⟨hlen, hleaf⟩ := hL row hrow
+  have hA := akF_has srcs d.rows p t0 hY
+  have hB := rkF_has d.parA d.parB srcs row p t0 hleaf
+  have hw := hasDerivAt_wRatio2 (akF srcs d.rows p) (rkF d.parA d.parB srcs row p t0) t0 hA hB
+    (by rw [akF_val]; exact hpos)
+  simp only [akF_val, rkF_val _ _ _ _ _ _ _ hlen, akF_der, rkF_der] at hw
+  rw [c02_weighted_early_exit _ _ _ _ _ _
+    (fun hy => by
+      unfold stDaRow
+      exact yieldDep_honest srcs hshape p hy _)
+    (fun hr => c02_ratioDep_honest _ _ _ _ hr _)]
+  unfold xOfRatio dxOfDRatio
+  have := (hw.sub_const 1).div_const (Transc.ofN d.N : ℝ)
+  refine hasDerivAt_of_eq this (fun y => rfl) ?_
+  simp [stDaRow, FDS.at]
+
+theorem stA_at (srcs : List (List ℤ × ℝ)) (fds : List FDS) (t : ℝ) :
+    stA (srcs.map (·.2)) (fds.map (fun d => d.at t))
+      = fds.map (fun d => aRow (srcs.map (·.2)) (d.rows.map (fun r => r.1 t))) := by
+  simp [stA, FDS.at, List.map_map, Function.comp_def]
+
+theorem tableA_val (srcs : List (List ℤ × ℝ)) (fds : List FDS) (p : ℕ) (t : ℝ) :
+    (fds.map (fun d => akF srcs d.rows p)).map (fun r => r.map (fun e => e.1 t))
+      = stA (srcs.map (·.2)) (fds.map (fun d => d.at t)) := by
+  rw [stA_at, List.map_map]
+  apply List.map_congr_left
+  intro d _
+  simp [akF_val]
+
+theorem tableA_der (srcs : List (List ℤ × ℝ)) (fds : List FDS) (p : ℕ) (t0 : ℝ) :
+    (fds.map (fun d => akF srcs d.rows p)).map (fun r => r.map (·.2))
+      = stDa (srcs.map (·.1)) (srcs.map (·.2)) (fds.map (fun d => d.at t0)) p := by
+  unfold stDa
+  rw [List.map_map, List.map_map]
+  apply List.map_congr_left
+  intro d _
+  simp [akF_der, stDaRow, FDS.at]
+
+/-- per-event `X_i(t)` of one dataset with the derivative `Grad.stacked` assigns for fit parameter `p` -/
+noncomputable def evF (srcs : List (List ℤ × ℝ)) (p : ℕ) (t0 : ℝ) (d : FDS) : List ((ℝ → ℝ) × ℝ) :=
+  d.ev.map (fun row =>
+    ((fun t => xOfRatio d.N (wRatio (aRow (srcs.map (·.2)) (d.rows.map (fun r => r.1 t)))
+        ((row.map (fun l => l.at t)).map leafRatio))),
+      dxOfDRatio d.N (wRatioGradCode (yieldDep (srcs.map (·.1)) p) (ratioDep d.parA d.parB (srcs.map (·.1)) p)
+        (aRow (srcs.map (·.2)) (d.rows.map (fun r => r.1 t0))) (stDaRow (srcs.map (·.1)) (srcs.map (·.2)) (d.at t0) p)
+        ((row.map (fun l => l.at t0)).map leafRatio)
+        (List.zipWith (fun g l => leafGrad d.parA d.parB (srcs.map (·.1)) g p l) (srcs.map (·.1))
+          (row.map (fun l => l.at t0))))))
+
+theorem evF_val (srcs : List (List ℤ × ℝ)) (p : ℕ) (t0 t : ℝ) (d : FDS) (ps : List ℕ) :
+    (evF srcs p t0 d).map (fun e => e.1 t) = (stDS ps (srcs.map (·.1)) (srcs.map (·.2)) (d.at t)).Xs := by
+  simp [evF, stDS, FDS.at, List.map_map, Function.comp_def]
+
+end C02
+
+/-- **THE JOINT THEOREM — every non-ns entry of the vector `Grad.stacked` returns is the derivative of the value
+`Grad.stacked` returns** (the function the driver runs and the harness compares with
+`MultiDatasetTCLLHRatio.evaluate` on every run).  `srcs` pairs every source's row of the `<name>:gpidx` table with
+its source weight; the datasets are given with their leaves as functions of the moving fit parameter `t = θ_p`
+(`FDS`, `FDS.at t` is the `DSIn` handed to the model).  Hypotheses: the leaves are *honest* for `p`
+(`FDS.Honest`: shapes `K`, each yield `Y_jk(t)` has the derivative the consumers' rule assigns from its local
+partials, each ratio factor the one `leafGrad` assumes — both discharged **for every layout** by
+`c02_layout_honest_yield` / `c02_layout_honest_leaf`), the rows of the table have the two columns the leaves know,
+and the guards of the value: `a ≠ 0`, `N_j ≠ 0`, `ns·f_j < N_j`, `A_j > 0` for datasets with selected events
+(the edge `A_j = 0` is `c02_zero_yield_row_counterexample`).  Conclusion: entry `p` exists and is
+`HasDerivAt` of the value — through the yields (`a_jk`), the dataset weights (`f_j`), the source weights in
+`R_i`, the product rule, the early exit and the position bookkeeping of `assemble` / `otherIds`. -/
+theorem c02_stacked_entry_is_derivative (opa : ℝ) (h0 : 0 < opa) (ns t0 : ℝ)
+    (srcs : List (List ℤ × ℝ)) (hshape : ∀ s ∈ srcs, s.1.length ≤ 2) (fds : List FDS)
+    (nFit nsIdx p : ℕ) (h : nsIdx < nFit) (hp : p < nFit) (hne : p ≠ nsIdx)
+    (hH : ∀ d ∈ fds, d.Honest srcs p t0)
+    (hA : total (stA (srcs.map (·.2)) (fds.map (fun d => d.at t0))) ≠ 0)
+    (hG : ∀ d ∈ fds, d.N ≠ 0 ∧
+      ns * fjRow (stA (srcs.map (·.2)) (fds.map (fun d => d.at t0)))
+        (aRow (srcs.map (·.2)) (d.rows.map (fun r => r.1 t0))) < d.N ∧
+      (d.ev ≠ [] → 0 < sumF (aRow (srcs.map (·.2)) (d.rows.map (fun r => r.1 t0))))) :
+    ∃ g, (stacked opa ns nFit nsIdx (srcs.map (·.1)) (srcs.map (·.2)) (fds.map (fun d => d.at t0))).grads[p]? = some g ∧
+      HasDerivAt (fun t => (stacked opa ns nFit nsIdx (srcs.map (·.1)) (srcs.map (·.2))
+        (fds.map (fun d => d.at t))).value) g t0 := by
+  obtain ⟨_, _, _, hgp⟩ := c02_stacked_shape opa ns nFit nsIdx h (srcs.map (·.1)) (srcs.map (·.2))
+    (fds.map (fun d => d.at t0))
+  refine ⟨_, hgp p hp hne, ?_⟩
+  have hAll : ∀ r ∈ fds.map (fun d => akF srcs d.rows p), ∀ e ∈ r, HasDerivAt e.1 e.2 t0 := by
+    intro r hr e he
+    simp only [List.mem_map] at hr
+    obtain ⟨d, hd, rfl⟩ := hr
+    exact akF_has srcs d.rows p t0 (hH d hd).2.1 e he
+  have hf : ∀ d ∈ fds, HasDerivAt
+      (fun t => fjRow (stA (srcs.map (·.2)) (fds.map (fun d => d.at t))) (aRow (srcs.map (·.2)) (d.rows.map (fun r => r.1 t))))
+      (fjGradRow (stA (srcs.map (·.2)) (fds.map (fun d => d.at t0))) (stDa (srcs.map (·.1)) (srcs.map (·.2)) (fds.map (fun d => d.at t0)) p)
+        (aRow (srcs.map (·.2)) (d.rows.map (fun r => r.1 t0))) (stDaRow (srcs.map (·.1)) (srcs.map (·.2)) (d.at t0) p)) t0 := by
+    intro d hd
+    have := c02_fj_quotient (fds.map (fun d => akF srcs d.rows p)) (akF srcs d.rows p) t0 hAll
+      (akF_has srcs d.rows p t0 (hH d hd).2.1) (by rw [tableA_val]; exact hA)
+    simp only [tableA_val, tableA_der srcs fds p t0, akF_val, akF_der] at this
+    refine hasDerivAt_of_eq this (fun y => rfl) ?_
+    simp [stDaRow, FDS.at]
+  have hsum := hasDerivAt_list_sum fds
+    (fun d t => llr opa d.N (ns * fjRow (stA (srcs.map (·.2)) (fds.map (fun d => d.at t))) (aRow (srcs.map (·.2)) (d.rows.map (fun r => r.1 t))))
+      ((evF srcs p t0 d).map (fun e => e.1 t)))
+    (fun d => gradNs opa d.N (ns * fjRow (stA (srcs.map (·.2)) (fds.map (fun d => d.at t0))) (aRow (srcs.map (·.2)) (d.rows.map (fun r => r.1 t0))))
+        ((evF srcs p t0 d).map (fun e => e.1 t0))
+        * (ns * fjGradRow (stA (srcs.map (·.2)) (fds.map (fun d => d.at t0))) (stDa (srcs.map (·.1)) (srcs.map (·.2)) (fds.map (fun d => d.at t0)) p)
+            (aRow (srcs.map (·.2)) (d.rows.map (fun r => r.1 t0))) (stDaRow (srcs.map (·.1)) (srcs.map (·.2)) (d.at t0) p))
+      + gradP opa (ns * fjRow (stA (srcs.map (·.2)) (fds.map (fun d => d.at t0))) (aRow (srcs.map (·.2)) (d.rows.map (fun r => r.1 t0))))
+        ((evF srcs p t0 d).map (fun e => e.1 t0)) ((evF srcs p t0 d).map (·.2))) t0
+    (by
+      intro d hd
+      obtain ⟨hN, hlt, hpos⟩ := hG d hd
+      refine c02_llr_total_deriv opa h0 d.N hN ((hf d hd).const_mul ns) hlt (evF srcs p t0 d) ?_
+      intro e he
+      simp only [evF, List.mem_map] at he
+      obtain ⟨row, hrow, rfl⟩ := he
+      exact event_has srcs hshape p t0 d (hH d hd) row hrow (hpos (List.ne_nil_of_mem hrow)))
+  refine hasDerivAt_of_eq hsum (fun t => ?_) ?_
+  · simp only [stacked, multiValue, sumF_eq_sum, fj, stDss, evF_val srcs p t0 t _ (otherIds nFit nsIdx)]
+    rw [stA_at]
+    simp only [List.zipWith_map, List.zipWith_self, List.map_map]
+    congr 1
+  · have hcol : ∀ d : FDS, (stDS (otherIds nFit nsIdx) (srcs.map (·.1)) (srcs.map (·.2)) (d.at t0)).dXs.getD
+        (if p < nsIdx then p else p - 1) [] = (evF srcs p t0 d).map (·.2) := by
+      intro d
+      rw [List.getD_eq_getElem?_getD, c02_stacked_column nFit nsIdx p h hp hne]
+      simp [evF, FDS.at, List.map_map, Function.comp_def]
+    simp only [multiGradP, sumF_eq_sum, fj, fjGrad, stDss, stDa, evF_val srcs p t0 t0 _ (otherIds nFit nsIdx)]
+    rw [stA_at]
+    simp only [List.zipWith_map, List.zipWith_self, List.zip_map', List.map_map, Function.comp_def, hcol]
+    congr 1
+    apply List.map_congr_left
+    intro d _
+    have hN' : (stDS (otherIds nFit nsIdx) (srcs.map (·.1)) (srcs.map (·.2)) (d.at t0)).N = d.N := rfl
+    rw [hN']
+    ring
+
+open ParamLayout
+
+/-- **the ns entry of `Grad.stacked` is the ns-derivative of its value** -/
+theorem c02_stacked_ns_entry_is_derivative (opa : ℝ) (h0 : 0 < opa) (ns : ℝ) (nFit nsIdx : ℕ) (h : nsIdx < nFit)
+    (gp : List (List ℤ)) (W : List ℝ) (ds : List (DSIn ℝ))
+    (hok : ∀ p ∈ List.zip (fj (stA W ds)) (stDss nFit nsIdx gp W ds), p.2.N ≠ 0 ∧ ns * p.1 < p.2.N) :
+    ∃ g, (stacked opa ns nFit nsIdx gp W ds).grads[nsIdx]? = some g ∧
+      HasDerivAt (fun n => (stacked opa n nFit nsIdx gp W ds).value) g ns := by
+  obtain ⟨_, _, hns, _⟩ := c02_stacked_shape opa ns nFit nsIdx h gp W ds
+  refine ⟨_, hns, ?_⟩
+  have := c02_multi_chain_ns opa h0 ns (fj (stA W ds)) (stDss nFit nsIdx gp W ds) hok
+  exact hasDerivAt_of_eq this (fun n => rfl) rfl
+
+namespace C02
+
+/-- the local parameter values of source `k` as the code builds them from the fit-parameter values `θ`
+(`default n` where the recarray holds NaN / the index is out of range) -/
+noncomputable def locVals (L : Layout) (fx : List ℝ) (k : ℕ) (dflt : Fin 2 → ℝ) (θ : List ℝ) : Fin 2 → ℝ :=
+  fun n => (localValue L θ fx k n).getD (dflt n)
+
+theorem locVals_set (L : Layout) (fx : List ℝ) (k : ℕ) (dflt : Fin 2 → ℝ) (θ : List ℝ) (p : ℕ) (hp : p < θ.length)
+    (t : ℝ) (n : Fin 2) :
+    locVals L fx k dflt (θ.set p t) n
+      = if gpidxField L k n = (p : ℤ) + 1 then t else locVals L fx k dflt θ n := by
+  unfold locVals
+  rw [c02_layout_value_moves L θ fx p hp t k n]
+  split_ifs <;> simp
+
+end C02
+
+/-- **layout × derivative, yields** (any quantity of one source depending on its two local parameters): for
+**every** layout, every fit-parameter id `p` and every differentiable `Y`, the consumers' rule applied to the row
+of the `<name>:gpidx` table the code builds is the derivative of `Y(local values built by the code from θ)`
+w.r.t. `θ_p`. This discharges the `Honest` yield hypothesis of `c02_stacked_entry_is_derivative`. -/
+theorem c02_layout_honest_yield (L : Layout) (fx θ : List ℝ) (k p : ℕ) (hp : p < θ.length) (dflt : Fin 2 → ℝ)
+    (Y : (Fin 2 → ℝ) → ℝ) (Y' : (Fin 2 → ℝ) →L[ℝ] ℝ)
+    (hY : HasFDerivAt Y Y' (locVals L fx k dflt θ)) :
+    HasDerivAt (fun t => Y (locVals L fx k dflt (θ.set p t)))
+      (locToFit (List.ofFn (fun n : Fin 2 => gpidxField L k n))
+        (List.ofFn (fun n : Fin 2 => Y' (fun j => if n = j then 1 else 0))) p) θ[p] := by
+  have hfun : (fun t => Y (locVals L fx k dflt (θ.set p t)))
+      = fun t => Y (fun n => if gpidxField L k n = (p : ℤ) + 1 then t else locVals L fx k dflt θ n) := by
+    funext t
+    congr 1
+    funext n
+    exact locVals_set L fx k dflt θ p hp t n
+  rw [hfun]
+  refine c02_interp_grad_mapping Y Y' (fun n : Fin 2 => gpidxField L k n) p (locVals L fx k dflt θ) θ[p] ?_ hY
+  intro n hn
+  have := locVals_set L fx k dflt θ p hp θ[p] n
+  rw [List.set_getElem_self] at this
+  rw [this, if_pos hn]
+
+/-- **layout × derivative, leaves** (a PDF-ratio factor depending on one local parameter `n` of its source) -/
+theorem c02_layout_honest_leaf (L : Layout) (fx θ : List ℝ) (k p : ℕ) (hp : p < θ.length) (dflt : Fin 2 → ℝ)
+    (n : Fin 2) (r : ℝ → ℝ) (dr : ℝ) (hr : HasDerivAt r dr (locVals L fx k dflt θ n)) :
+    HasDerivAt (fun t => r (locVals L fx k dflt (θ.set p t) n))
+      (if gpidxField L k n = (p : ℤ) + 1 then dr else 0) θ[p] := by
+  have hfun : (fun t => r (locVals L fx k dflt (θ.set p t) n))
+      = fun t => r (if gpidxField L k n = (p : ℤ) + 1 then t else locVals L fx k dflt θ n) := by
+    funext t
+    rw [locVals_set L fx k dflt θ p hp t n]
+  rw [hfun]
+  by_cases hc : gpidxField L k n = (p : ℤ) + 1
+  · simp only [hc, if_true]
+    have hv : locVals L fx k dflt θ n = θ[p] := by
+      have := locVals_set L fx k dflt θ p hp θ[p] n
+      rw [List.set_getElem_self] at this
+      rw [this, if_pos hc]
+    rw [hv] at hr
+    exact hasDerivAt_of_eq hr (fun y => rfl) rfl
+  · simp only [hc, if_false]
+    exact hasDerivAt_const _ _
+
+-- non-vacuity of `FDS.Honest`: one source whose local parameter 0 is fit parameter 0 (gpidx row `[1, 0]`), a yield
+-- `Y(t) = t` with local partials `[1, 0]`, one event with factors `rA(t) = t`, `rB = 2`
+example : (⟨3, true, true, [((fun t => t), [1, 0])], [[⟨fun t => t, fun _ => 2, 1, 0⟩]]⟩ : C02.FDS).Honest
+    [([1, 0], 1)] 0 1 := by
+  refine ⟨rfl, ?_, ?_⟩
+  · intro e he
+    simp only [List.zip_cons_cons, List.zip_nil_right, List.mem_cons, List.not_mem_nil, or_false] at he
+    subst he
+    have : locToFit [(1 : ℤ), 0] [(1 : ℝ), 0] 0 = 1 := by simp [locToFit, LLH.sumF]
+    exact C02.hasDerivAt_of_eq (hasDerivAt_id (1 : ℝ)) (fun y => rfl) (by simp [this])
+  · intro row hrow
+    simp only [List.mem_cons, List.not_mem_nil, or_false] at hrow
+    subst hrow
+    refine ⟨rfl, ?_⟩
+    intro e he
+    simp only [List.zip_cons_cons, List.zip_nil_right, List.mem_cons, List.not_mem_nil, or_false] at he
+    subst he
+    constructor
+    · exact C02.hasDerivAt_of_eq (hasDerivAt_id (1 : ℝ)) (fun y => rfl) (by simp)
+    · exact C02.hasDerivAt_of_eq (hasDerivAt_const (1 : ℝ) (2 : ℝ)) (fun y => rfl) (by simp)
